@@ -519,7 +519,7 @@ pub fn run_c08(rep: &mut Report, thorough: bool) {
         let all = tcp_events(tag, f, s.cookies[&key_of(f)], true);
         // C08 alphabet: the state-changing and state-reading subset
         for e in all {
-            let keep = ["syn", "data-http-ack=cookie+1", "data-http-ack=0", "data-Z", "data-http-half1", "data-http-half2", "data-http-sig-cut1", "data-http-sig-cut2", "data-rpc-part1", "data-rpc-part2", "data-rpc-part3", "data-ssh", "finack-0x3e8", "rst", "data-empty"];
+            let keep = ["syn", "data-http-ack=cookie+1", "data-http-ack=0", "data-Z", "data-http-half1", "data-http-half2", "data-http-sig-cut1", "data-http-sig-cut2", "data-rpc-part1", "data-rpc-part2", "data-rpc-part3", "data-ssh", "finack-0x3e8", "rst", "data-empty", "ack"];
             if keep.iter().any(|k| e.name.split_once(':').map(|x| x.1.starts_with(k)).unwrap_or(false)) {
                 events.push(e);
             }
@@ -555,6 +555,7 @@ pub fn run_c08(rep: &mut Report, thorough: bool) {
     neighbour_probe(&s.cfg, rep);
     crate::props::apps::busy_stage(rep, &s.cfg, "C08", "busy-responder", &crate::props::apps::busy_convs(), 70_000);
     crate::props::apps::edge_conv_stage(rep, "C08", "edge-cookie-conversations", &crate::props::apps::busy_convs());
+    crate::props::apps::sibling_conv_stage(rep, &s.cfg, "C08", "sibling-connections", &crate::props::apps::busy_convs());
     {
         // depth-2 histories over the base corpus and the L2-L4 set, process-level differential
         let mut fr: Vec<crate::props::pairs::PFrame> = crate::props::pairs::l2l4_frames();
